@@ -374,7 +374,7 @@ func (g *gen) runArgv() (argv []string, marks []bool, stdin string) {
 	missingLast := g.chance(4)
 	// `--`
 	// `--` only where the roles after it are known by construction: at or after the program unit
-	// (so that no flag token becomes the program); anywhere when -f supplies the program
+	// (so that no flag token becomes the program); after the -f unit when -f supplies the program
 	dd := -1
 	if !missingLast && g.chance(14) {
 		progAt := -1
@@ -384,9 +384,15 @@ func (g *gen) runArgv() (argv []string, marks []bool, stdin string) {
 				break
 			}
 		}
+		exprAt := -1
+		for i, u := range units {
+			if u.exprFile {
+				exprAt = i
+			}
+		}
 		switch {
 		case hasExprFile:
-			dd = g.r.Intn(len(units) + 1)
+			dd = g.r.Range(exprAt+1, len(units)) // after the -f unit: every positional is a file
 		case progAt >= 0:
 			dd = g.r.Range(progAt, len(units))
 		default:
